@@ -670,7 +670,7 @@ fn main() {
     let mut out = Out::new();
     let cs = cases(seed, thorough);
     let shards: usize = std::env::var("VERIF_SHARDS").ok().and_then(|s| s.parse().ok()).unwrap_or(6);
-    let watchdog = Duration::from_millis(2000);
+    let watchdog = Duration::from_millis(6000); // per output line of a worker; generous because the machine may be loaded
 
     // ---- phase 1: trie level
     let per = cs.len().div_ceil(shards);
@@ -776,7 +776,7 @@ fn main() {
                 let mut lines: Vec<String> = vec![];
                 let mut from = lo;
                 while from < hi {
-                    let (evs, done) = run_worker(&["--ctxworker".into(), from.to_string(), hi.to_string()], Duration::from_millis(4000));
+                    let (evs, done) = run_worker(&["--ctxworker".into(), from.to_string(), hi.to_string()], Duration::from_millis(10000));
                     for ev in evs {
                         match ev {
                             Ev::Line(l) => lines.push(l),
